@@ -1,8 +1,8 @@
 #!/bin/bash
-# usage: drv/seed_verify.sh <Cxx> [name]
+# usage: drv/seed_verify.sh <Cxx> [name] [srcdir]
 # Confirms an agent-written seeded change: fresh scratch worktree; demo passes without the patch; with the patch the
 # library builds, the repository's tests pass and the demo fails. Copies the deliverables to /verif/seeded/<name>/.
-ID=$1; NAME=${2:-$ID}; SRC=/tmp/wt-$ID; W=/tmp/sv-$ID-$$; OUT=/verif/seeded/$NAME
+ID=$1; NAME=${2:-$ID}; SRC=${3:-/tmp/wt-$ID}; W=/tmp/sv-$ID-$$; OUT=/verif/seeded/$NAME
 [ -f $SRC/patch.diff ] || { echo "no patch in $SRC"; exit 2; }
 mkdir -p $OUT; cp $SRC/patch.diff $OUT/; for f in demo.c demo.sh NOTES.md; do [ -f $SRC/$f ] && cp $SRC/$f $OUT/; done
 # keep only library/tool changes in the patch
